@@ -60,17 +60,19 @@ prop("C09", [
     dict(engine="verus", unit="dhcphandlers", fns=["handle_request", "handle_discover"]),
     # (the record written for a grant names the client: it is what "holds" means for the next message -- allocate_address/C10, C13 frame)
     dict(POOL_B, checks=["sql_in_use", "allocate_address/C09", "allocate_address/C10", "allocate_address/C13"]),
+    # which option names the address the client asks for (real get_address_request = option 50)
+    dict(engine="verus", unit="dhcpgetters", fns=["parse_into_ip4", "DhcpOptions::get_address_request"]),
 ], explanation="select_address: a held in-pool address is kept (requested one first); refusal only on exhaustion",
     assumptions=["SQL statement contracts assumed; engine B bounded", "Display/FromStr of Ipv4Addr are inverse on canonical text (axioms)"])
 prop("C10", [
     dict(engine="verus", unit="dhcphandlers", fns=["handle_discover", "handle_request", "handle_pkt", "Pool::allocate_address", "Pool::select_address"]),
-    dict(engine="verus", unit="dhcpgetters"),
+    dict(engine="verus", unit="dhcpgetters", fns=["parse_into_ip4", "parse_into_msgtype", "parse_into_bytes", "parse_into_u8"]),
     dict(POOL_B, checks=["allocate_address/C10", "handlers/reply-backed-by-record"]),
 ], explanation="OFFER and ACK carry option 51 = recorded expiry - start, within [300, 86400] (defaults), record starts at the reply time",
     assumptions=["policies cannot change min/max lease (apply_policies frame, assumed here)", "ResponseOptions / DhcpOptions accessor contracts assumed in unit dhcphandlers (HashMap glue)"])
 prop("C13", [
     dict(engine="verus", unit="dhcphandlers", fns=["handle_discover", "handle_request", "handle_pkt", "Pool::allocate_address"]),
-    dict(engine="verus", unit="dhcpgetters"),
+    dict(engine="verus", unit="dhcpgetters", fns=["parse_into_ip4", "parse_into_msgtype", "parse_into_bytes", "parse_into_u8", "DhcpOptions::get_serverid", "DhcpOptions::get_messagetype"]),
     # "a request that matches no configured pool is not answered": which policies a request matches (all conditions of a policy must hold)
     dict(engine="verus", unit="policy", fns=["check_policy", "check_policies", "apply_policy", "apply_policies"]),
     dict(POOL_B, checks=["allocate_address/C13", "handlers/reply-backed-by-record"]),
